@@ -8,7 +8,7 @@ CONSTANTS
   GuardEndpoint = TRUE
   NoSigpipe = TRUE
   MaxHist = 4
-INVARIANTS C35_NoThrow
+INVARIANTS Reach_HostileEndpointParsed
 VIEW View
 CONSTRAINT Bound
 CHECK_DEADLOCK FALSE
